@@ -2,7 +2,8 @@
 # tools/try_mutant.sh <patch> <check-id>... : applies a patch to /repo, runs the given quick checks, and undoes it.
 P=$1; shift
 cd /repo && git diff --quiet || { echo "/repo is dirty"; exit 2; }
-git -C /repo apply "$P" || { echo "patch does not apply"; exit 2; }
+git -C /repo apply "$P" 2>/dev/null || git -C /repo apply --3way "$P" || { echo "patch does not apply"; git -C /repo checkout -- .; exit 2; }
+git -C /repo reset -q
 cd /verif
 for c in "$@"; do
   out=$(./check $c --tier ${TIER:-quick} 2>&1)
